@@ -57,8 +57,6 @@ def _eval_global(case):
     d = gen.enc_arr(data)
     f = []
     near = {}
-    # fullhistogram
-    hist = mh.fullhistogram(img)
     lines = [f'c16 kind=hist data={d}']
     real = {}
     prng = np.random.RandomState(case.get('pseed', 0))
@@ -69,11 +67,19 @@ def _eval_global(case):
     divs = [k for k in range(1, n + 1) if n % k == 0]
     k = divs[prng.randint(len(divs))]
     pimg = pimg.reshape((k, n // k))
+    # the real calls; a documented call that raises is a finding of its own, not an infrastructure error
+    try:
+        hist = mh.fullhistogram(img)
+        for iz in (0, 1):
+            T = otsu(img, bool(iz))
+            R = rc(img, bool(iz))
+            real[iz] = (T, R, otsu(pimg, bool(iz)), rc(pimg, bool(iz)))
+    except Exception as e:
+        return dict(findings=[dict(kind='property', key=f'global-threshold:raised:{type(e).__name__}',
+                                   detail=dict(error=str(e)[:200]))], nontrivial=False, sig='g-raised' + d[:200],
+                    tags=dict(kind='otsu+rc', dtype=case['dtype'], gen=case.get('gen', 'corpus'), near_tie='none'))
     for iz in (0, 1):
-        T = otsu(img, bool(iz))
-        R = rc(img, bool(iz))
-        real[iz] = (T, R, otsu(pimg, bool(iz)), rc(pimg, bool(iz)))
-        lines.append(f'c16 kind=otsu data={d} iz={iz} got={int(T)}')
+        lines.append(f'c16 kind=otsu data={d} iz={iz} got={int(real[iz][0])}')
         lines.append(f'c16 kind=rc data={d} iz={iz}')
     drv = core.drive(lines)
     mh_hist = [int(v) for v in hist.tolist()]
@@ -143,18 +149,22 @@ def _eval_bernsen(case):
     g2 = case['g2']                       # twice the global threshold (so that x.5 thresholds stay integral)
     gth = g2 // 2 if g2 % 2 == 0 else g2 / 2.0
     f = []
-    if case['kind'] == 'bernsen':
-        se = circle_se(case['radius'])
-        if case.get('default_g'):
-            got = bernsen(img, case['radius'], ct)
-            g2 = 256
+    name = case['kind']
+    try:
+        if case['kind'] == 'bernsen':
+            se = circle_se(case['radius'])
+            if case.get('default_g'):
+                got = bernsen(img, case['radius'], ct)
+                g2 = 256
+            else:
+                got = bernsen(img, case['radius'], ct, gth)
         else:
-            got = bernsen(img, case['radius'], ct, gth)
-        name = 'bernsen'
-    else:
-        se = np.array(case['bc'], bool).reshape(case['bshape'])
-        got = gbernsen(img, se, ct, gth)
-        name = 'gbernsen'
+            se = np.array(case['bc'], bool).reshape(case['bshape'])
+            got = gbernsen(img, se, ct, gth)
+    except Exception as e:
+        return dict(findings=[dict(kind='property', key=f'{name}:raised:{type(e).__name__}', detail=dict(error=str(e)[:200]))],
+                    nontrivial=False, sig='b-raised' + json.dumps(case)[:200],
+                    tags=dict(kind=name, dtype=case['dtype'], gen=case.get('gen', 'corpus')))
     line = (f"c16 kind=gbernsen shape={gen.enc_shape(img.shape)} data={gen.enc_arr(img)} "
             f"bshape={gen.enc_shape(se.shape)} bc={gen.enc_arr(se.astype(int))} ct={ct} g2={g2}")
     drv = core.drive([line])[0]
@@ -193,7 +203,11 @@ def _eval_soft(case):
         t = int(case['t'])
         line = f"c16 kind=soft dt=i64 data={gen.enc_arr(case['data'])} t={t}"
     before = x.copy()
-    got = soft_threshold(x, t)
+    try:
+        got = soft_threshold(x, t)
+    except Exception as e:
+        return dict(findings=[dict(kind='property', key=f'soft_threshold:raised:{type(e).__name__}', detail=dict(error=str(e)[:200]))],
+                    nontrivial=False, sig='s-raised' + line[:200], tags=dict(kind='soft_threshold', dtype=case['dt']))
     drv = core.drive([line])[0]
     if case['dt'] == 'f64':
         spec, model = core.floats(drv['spec']), core.floats(drv['model'])
@@ -340,7 +354,7 @@ def _rand_soft(rng):
 
 def cases(rng, tier):
     out = list(_corpus()) if tier != 'search' else []
-    ng, nb, ns = dict(quick=(1400, 700, 300), thorough=(28000, 9000, 3000), search=(6000, 3000, 500))[tier]
+    ng, nb, ns = dict(quick=(3000, 1500, 500), thorough=(28000, 9000, 3000), search=(6000, 3000, 500))[tier]
     for _ in range(ng):
         out.append(_rand_global(rng))
     for _ in range(nb):
